@@ -25,7 +25,7 @@ RULE = ("Two workloads at the Broker.rebalance boundary. (a) rebalances inside r
         "non-empty holdings and targets a short or leveraged (>1) weight or mixes spot and margined contracts.")
 ASSUMPTIONS = ["no trade threshold (C12)", "epsilon snap of |position| < 1e-7 is documented behaviour (DESIGN 4.2-a)",
                "contract-count targets are reached to 8 ulp of max(1,|target|,|prior|) (DESIGN 4.2-b)"]
-REQUIRED = ["C03:chain-others-flat", "C03:target-weight-reached", "C03:target-contracts-reached", "C03:untargeted-closed",
+REQUIRED = ["C03:same-request-other-account", "C03:chain-others-flat", "C03:target-weight-reached", "C03:target-contracts-reached", "C03:untargeted-closed",
             "C03:frictionless-weights", "C03:frictionless-nlv-unchanged", "C03:second-rebalance-trades-nothing",
             "C03:frictionless-contracts-reached"]
 REQUIRED_HITS = ["Broker.rebalance", "Rebalancing.make_trades"]
@@ -125,6 +125,27 @@ def frictionless(ctx):
     b.rebalance(r2)
     tot = sum(abs(x.notional) for x in r2.trades)
     ctx.check("C03:second-rebalance-trades-nothing", tot <= 1e-9 * gross, traded=tot, nlv=n0)
+    if rng.random() < 0.4 and chain is None:
+        # the SAME request object is then applied to another account (a model portfolio applied to
+        # several accounts): that account's own NLV and holdings decide its trades
+        b2 = Broker(ex, deposit=dep * rng.choice([0.5, 3.0]))
+        if rng.random() < 0.5:
+            b2.rebalance(Rebalancing(cs, [rng.uniform(-0.5, 0.8) for _ in cs], time=t - timedelta(hours=1)))
+        m0 = b2.net_liquidation_value()
+        prior = b2.holdings_quantity
+        b2.rebalance(r2)
+        h2 = b2.holdings_quantity
+        if meas == "weight":
+            w2 = b2.holdings_weights()
+            g2 = m0 + sum(abs(q * mid[c] * c.multiplier) for c, q in h2.items() if c in mid)
+            for c, x in zip(cs, tgt):
+                ctx.check("C03:same-request-other-account", abs(w2.get(c, 0.0) - x) <= 1e-9 * max(1.0, g2 / m0) + 1.01e-7 * c.multiplier * mid[c] / m0,
+                          contract=c.symbol, got=w2.get(c, 0.0), want=x)
+        else:
+            for c, x in zip(cs, tgt):
+                ctx.check("C03:same-request-other-account", abs(h2.get(c, 0.0) - x) <= 8 * 2.3e-16 * max(1, abs(x), abs(prior.get(c, 0.0))),
+                          contract=c.symbol, got=h2.get(c, 0.0), want=x)
+        ctx.cat("same-request-two-accounts")
     ctx.cat("frictionless:" + meas, "frictionless:history{}".format(nhist))
     ctx.nontrivial = nhist > 0 and (any(x < 0 or x > 1 for x in tgt) or
                                     len({gen.is_margined(c) for c in cs}) == 2)
